@@ -39,7 +39,8 @@ def dedupe(jobs):
 def generic(prop, tier, jobs, note, sample_every=25, level='model_checking', extra_cov=None):
     t0 = time.time()
     jobs = dedupe(jobs)
-    res, skipped = mcdriver.run_jobs(jobs, wall(tier), sample_every=sample_every)
+    # a single program may not hold the tier hostage: it is capped (and reported as capped) after this long
+    res, skipped = mcdriver.run_jobs(jobs, wall(tier), per_job_cap_s=(100 if tier == 'quick' else 600), sample_every=sample_every)
     return mcdriver.finish(prop, tier, level, res, skipped, t0, assumptions=ASSUME_MC, technique_note=note, extra_cov=extra_cov)
 
 # ---------------------------------------------------------------- C01
@@ -113,8 +114,12 @@ def hb_programs(tier):
         L.append(('cv', p, 1 if q else 2, 1))
     for p in ['Mw1|@1 A', 'Mr1|@1 A', 'Mw1|A', 'Mw1|Mw2|@2 A B', 'Mw1|Mr1|@2 A', 'Mw1|@1 Z A', 'Mw1z|Mw2|@2 B A']:
         L.append(('muwait', p, P2 if p.count('|') == 2 else (3 if q else 4), 0))
-    for p in ['Mw1d|@1 A', 'Mw1N|N|@1 A']:
+    for p in ['Mw1d|@1 A', 'Mw1N|N|@1 A', 'Mw1d|Mw1|@2 A', 'Mr1d|Mw1|@2 A']:
         L.append(('muwait', p, 1 if q else 2, 1))
+    for p in ['Wwd|Ww|@2 S', 'Wnd|Ww|@2 S', 'Wrd|Wr|@2 B']:
+        L.append(('cv', p, 1, 1))
+    for p in ['Wad|na', 'Wcd|dc']:
+        L.append(('waitn', p, 2, 1))
     # once-function -> every return
     for p in ['O|O', 'O|Os', 'Os|Os', 'Oa|Oas', 'O|O|Os', 'O O|Os', 'Os|Oas|Os']:
         L.append(('once', p, 2 if p.count('|') == 2 else (3 if q else 4), 0 if 's' in p and 'O|' not in p else 1))
